@@ -2,6 +2,14 @@
 """Regenerates /verif/MANIFEST.json from the table below (run after adding a check)."""
 import json, subprocess
 CHECKS = {
+ "C04": dict(level="exploration",
+   text="Complete sweep of a finite catalogue: every (filter, name) pair over levels {a,b,empty,+} / '#' up to depth 4 in both directions (Match over stored filters, Search over stored names), every two-entry tree (distinct and equal values) over depth-3 entries, three-entry trees (thorough), plus a structured long/multi-byte family, each compared with an independent 15-line reference matcher. Exhaustive enumeration of inputs; there is no state space, hence 'exploration' with exhaustive:true.",
+   note="Trusted: ref.Matches (written from MQTT 3.1.1 section 4.7). Longer random inputs of the quantifier are replaced by the stated finite universes.",
+   technique="bounded-exhaustive input enumeration against a reference matcher", design="4 (C04)"),
+ "C05": dict(level="model_checking",
+   text="Explicit-state closure: all 3125 reachable implementation states of the tree over 5 topics x 2 values (two universes: stored filters, stored names), every query compared with a map model in every state, structure compared with a fresh tree of equal contents (no trace of history), results of the predecessor state re-read after each operation (snapshots). Concurrency: all 12.5k programs of 2-3 threads over a conflict-forced 12-operation alphabet, every interleaving and map order up to the deviation bound under the controlled scheduler, brute-force linearizability against the map model.",
+   note="Trusted: rewriter + scheduler shims; map model in mc/h/c05; RWMutex modelled without writer preference; data races in the memory-model sense are not visible to a cooperative scheduler (the aliasing hazard is caught by the snapshot clause instead).",
+   technique="explicit-state closure + exhaustive interleaving exploration with linearizability oracle", design="4 (C05)"),
  "C18": dict(level="model_checking",
    text="Explicit-state closure over all 65536 counter states and over every reachable MemorySession store state of a small packet universe (fixpoint, map model compared in every state), plus every interleaving of all 2-3 thread programs over the counter and store alphabets under a controlled scheduler with a brute-force linearizability oracle. Exhaustive within those bounds; the right level because the state spaces are finite and small.",
    note="Trusted: the source rewriter and scheduler shims (mc/vrt, vch, vsync), the map/cycle reference models in mc/h/c18. Lock acquisitions are the only scheduling points; unsynchronised accesses are not seen by this check.",
